@@ -8,7 +8,7 @@ from ..astutil import calls_in, norm_stmt, path_of, unparse, walk_scope, walk_st
 from ..cfg import own_exprs
 from ..facts import Fact, FactFlow, atoms, enumerate_paths, implies
 from ..report import Ctx
-from .common import always_before, guard, increment_of, ingredients_along, need, node_of, stmts_matching
+from .common import always_before, expand, guard, increment_of, ingredients_along, need, node_of, single_defs, stmts_matching
 
 POL = "happysimulator/components/rate_limiter/policy.py"
 RLE = "happysimulator/components/rate_limiter/rate_limited_entity.py"
@@ -406,15 +406,64 @@ def rule_distributed(ctx: Ctx) -> None:
     ctx.floor("C10-5", 1)
 
 
+def rule_hunted(ctx: Ctx) -> None:
+    """Rules distilled from hunted defects.
+    C10-1: a bucket whose capacity depends on a rate that can shrink (AdaptivePolicy) clamps its level on *every* path through `_refill` —
+    also when no time has passed (a rate cut followed by a burst at the same instant).
+    C10-1: window alignment uses the integer nanosecond clock; floor division of float seconds puts boundary instants (0.3 // 0.1 == 2.0)
+    into the window that has just ended.
+    C10-2: a drain poll an entity schedules for itself lies at least one nanosecond ahead (a positive sub-nanosecond wait truncates to
+    zero and the poll would spin at the current instant)."""
+    prog = ctx.prog
+    ap = prog.func(POL, "AdaptivePolicy._refill")
+    af = ctx.flow(ap)
+    clamps = [n_ for n_ in af.cfg.nodes if n_.kind == "stmt" and isinstance(n_.ast, ast.Assign) and path_of(n_.ast.targets[0]) == "self._tokens"
+              and isinstance(n_.ast.value, ast.Call) and path_of(n_.ast.value.func) == "min" and any("max_tokens" in unparse(a_) for a_ in n_.ast.value.args)]
+    bad = [p_.describe()[:80] for p_ in enumerate_paths(af, af.cfg.entry) if p_.end == "exit" and not any(any(nd is c_ for c_ in clamps) for nd in p_.nodes)]
+    ctx.ob("C10-1", "G6", ap, clamps[0].ast if clamps else None, bool(clamps) and not bad, "AdaptivePolicy._refill clamps the level to the current rate's capacity on every path, including the first call and the "
+           "zero-elapsed one (the rate may have been cut since the last refill)" + ("" if not bad else " — unclamped path: " + bad[0]))
+    n_w = 0
+    for fn in prog.all_functions("happysimulator/components/rate_limiter/"):
+        for x in walk_scope(fn.node, include_root=False):
+            if isinstance(x, ast.BinOp) and isinstance(x.op, (ast.FloorDiv, ast.Mod)) and ("window" in unparse(x.right).lower() or "window" in fn.name.lower()):
+                n_w += 1
+                floaty = any(isinstance(y, ast.Call) and isinstance(y.func, ast.Attribute) and y.func.attr in ("to_seconds", "total_seconds") for y in ast.walk(x.left)) \
+                    or (isinstance(x.right, ast.Attribute) and x.right.attr in ("_window_size", "window_size"))
+                ctx.ob("C10-1", "G7", fn, x, not floaty, f"{fn.qual}: window alignment `{unparse(x)[:60]}` is computed on integer nanoseconds, not by floor-dividing float seconds")
+    need(n_w >= 2, f"C10-1: expected >= 2 window-alignment computations (FixedWindowPolicy, DistributedRateLimiter), found {n_w}")
+    n_p = 0
+    for rel, q in ((RLE, "RateLimitedEntity._ensure_poll_scheduled"), (IND, "Inductor._ensure_poll_scheduled")):
+        fn = prog.func(rel, q)
+        evs = [c for c in calls_in(fn.node) if path_of(c.func) == "Event"]
+        floors = [t_ for t_ in walk_stmts(fn.node.body) if isinstance(t_, ast.If) and len(atoms(t_.test, True)) == 1 and atoms(t_.test, True)[0].sig[0] == "le" and atoms(t_.test, True)[0].sig[2] in ("Duration.ZERO", "0")
+                  and any(isinstance(b_, ast.Assign) and path_of(b_.targets[0]) == atoms(t_.test, True)[0].sig[1] and unparse(b_.value).replace(" ", "") in ("Duration(1)", "Duration(nanoseconds=1)") for b_ in t_.body)]
+        # a wait taken from `policy.time_until_available()` is floored by the policy (zero there means "an acquire succeeds now"): only a wait
+        # this function converts from float seconds itself needs its own floor
+        if not any(path_of(k.func) == "Duration.from_seconds" for k in calls_in(fn.node)):
+            continue
+        n_p += 1
+        ok = len(evs) == 1 and len(floors) == 1
+        if ok:
+            w = atoms(floors[0].test, True)[0].sig[1]
+            tkw = [k.value for k in evs[0].keywords if k.arg == "time"]
+            ttxt = unparse(expand(tkw[0], single_defs(fn))) if tkw else ""
+            ok = w in ttxt and not always_before(ctx, fn, lambda x: x.ast is floors[0] or (x.kind == "test" and any(y is x.ast for y in ast.walk(floors[0].test))), lambda x: x is node_of(ctx.flow(fn).cfg, evs[0]))
+        ctx.ob("C10-2", "G5", fn, evs[0] if evs else None, ok, f"{q}: the wait added to `now` for the self-scheduled poll is floored at one nanosecond before the event is built")
+    need(n_p >= 1, "C10-2: no self-scheduled poll with a locally converted wait found (Inductor expected)")
+
+
 def run(ctx: Ctx) -> None:
+    ctx.guarded(rule_hunted)
     ctx.guarded(rule_policies)
     ctx.guarded(rule_entities)
     ctx.guarded(rule_distributed)
 
 
 MUTANTS = [
-    ("adaptive-clamp-only-when-below-cap", POL, "        max_tokens = max(1.0, self._current_rate * self._window_size)\n        self._tokens = min(max_tokens, self._tokens + elapsed * self._current_rate)",
-     "        max_tokens = max(1.0, self._current_rate * self._window_size)\n        if self._tokens < max_tokens:\n            self._tokens = min(max_tokens, self._tokens + elapsed * self._current_rate)", "C10-1"),
+    ("adaptive-zero-elapsed-unclamped", POL, "            # No time has passed, but the rate may have been decreased since\n            # the last refill: the balance must still respect the current cap.\n            self._tokens = min(max_tokens, self._tokens)\n", "", "C10-1"),
+    ("distributed-window-float-floor", DIST, "        return now.nanoseconds // self._window_ns", "        return int(now.to_seconds() // self._window_size)", "C10-1"),
+    ("inductor-poll-unfloored", IND, "        if wait <= Duration.ZERO:\n            wait = Duration(1)\n", "", "C10-2"),
+    ("adaptive-clamp-only-when-below-cap", POL, "        self._tokens = min(max_tokens, self._tokens + elapsed * self._current_rate)\n", "        if self._tokens < max_tokens:\n            self._tokens = min(max_tokens, self._tokens + elapsed * self._current_rate)\n", "C10-1"),
     ("rle-unchecked-push-before-pop", RLE, "            oldest = self._queue.pop()\n            if oldest is None:\n                raise RuntimeError(\"Queue reported non-empty but pop() returned None\")\n            self._queue.push(event)\n            self._queued += 1\n            return self._forward(oldest, now)",
      "            self._queue.push(event)\n            self._queued += 1\n            oldest = self._queue.pop()\n            if oldest is None:\n                raise RuntimeError(\"Queue reported non-empty but pop() returned None\")\n            return self._forward(oldest, now)", "C10-3"),
     ("token-bucket-admits-fraction", POL, "    def try_acquire(self, now: Instant) -> bool:\n        self._refill(now)\n        if self._tokens >= 1.0:\n            self._tokens -= 1.0\n            return True\n        return False\n\n    def time_until_available(self, now: Instant) -> Duration:\n        self._refill(now)\n        if self._tokens >= 1.0:\n            return Duration.ZERO\n        deficit = 1.0 - self._tokens\n        wait = Duration.from_seconds(deficit / self._refill_rate)",
